@@ -11,6 +11,8 @@ use tc::{parse_snap, result_of, run_tab_with, GSnap};
 
 #[path = "c20_sys.rs"]
 pub mod sys;
+#[path = "c20_rdv.rs"]
+mod rdv;
 
 const RULE: &str = "a case is one op history on a fresh real session table (capacity 16 sessions x 5 exchanges): handshake attempts that reserve a slot (ReservedSession::reserve_now) and are abandoned before / after update, completed, or refused because the table is full; unsecured sessions added as for a first handshake message; exchanges initiated, opened by received messages, accepted or never accepted, dropped with pending ack / retransmission; sessions expired; eviction queries and evictions after virtual time steps (and at the same instant); then a quiescence phase - every handle dropped, accept deadline passed and accept sweep run for accept-pending exchanges, closer run until it finds nothing - and a final leak check op. Every op line carries the implementation's result and the table snapshot. Non-trivial = at least two distinct output lines; #stat lines give table-full refusals, evictions, closer actions; distinct = by op list";
 
@@ -312,7 +314,7 @@ fn gen_sys(id: u64, r: &mut Rng) -> (String, Vec<String>, bool) {
 pub fn gen(a: &Args) -> String {
     let mut r = Rng::new(a.seed);
     let mut out = Out::default();
-    out.buf.push_str(&format!("#rule {} || {}\n", RULE, SYS_RULE));
+    out.buf.push_str(&format!("#rule {} || {} || {}\n", RULE, SYS_RULE, rdv::RDV_RULE));
     let n_cases = if a.thorough { 40000 } else { 4500 };
     for id in 0..n_cases {
         let mut cr = r.fork();
@@ -331,6 +333,15 @@ pub fn gen(a: &Args) -> String {
             out.buf.push_str("#nt\n");
         }
     }
+    // unit level: the real mDNS rendezvous slots with a manual poll order (tie of Model/Rendezvous)
+    let n_rdv = if a.thorough { 20000 } else { 2000 };
+    for id in 0..n_rdv {
+        let mut cr = r.fork();
+        let kind = if cr.chance(1, 2) { "rdv resolve" } else { "rdv browse" };
+        let len = cr.range(3, 16) as usize;
+        out.case(2_000_000 + id, kind);
+        rdv::gen_rdv(&mut cr, &mut out, kind, len);
+    }
     out.finish()
 }
 
@@ -341,6 +352,9 @@ pub fn replay(a: &Args) -> String {
         if c.kind.starts_with("sys") {
             out.case(c.id, &c.kind);
             sys::run_sys(&mut out, &c.kind, &c.ops);
+        } else if c.kind.starts_with("rdv") {
+            out.case(c.id, &c.kind);
+            rdv::run_rdv(&mut out, &c);
         } else {
             tc::run_case(&mut out, &c);
         }
